@@ -242,6 +242,12 @@ Theorem C10_names_unique_now :
 Proof. exact Inst_C10.member_names_unique. Qed.
 Print Assumptions C10_names_unique_now.
 
+(* instance: the hint is looked up among the candidates (the `chosen (targets p o) hint` of the model), not among all members of
+   the parent: the loops of the real add() are the modelled ones (translators/tr_supersig.py) *)
+Theorem C10_hint_loop_over_candidates : hint_loop_okb Gen_Members.add_loops Gen_Members.hint_loops = true.
+Proof. exact Inst_C10.hint_loop_over_candidates. Qed.
+Print Assumptions C10_hint_loop_over_candidates.
+
 (* ---- the value equality behind the duplicate test (C10_dup's `equal_to`) is the code's GeneratedsSuper.__eq__:
    translators/tr_eq.py (fail closed) extracts the attribute names __eq__ leaves out of the pairwise comparison of the
    instance dictionaries; they are exactly the two bookkeeping attributes, so no member attribute of any class
